@@ -64,6 +64,18 @@ mut("fibex-unwrap-line-column", "C12", "fibex/mod.rs",
     "        String::from_utf8_lossy(tag),\n        String::from_utf8_lossy(enclosing_tag),\n        line_column.unwrap_or((0, 0))",
     "        String::from_utf8_lossy(tag),\n        String::from_utf8_lossy(enclosing_tag),\n        line_column.unwrap()")
 mut("fibex-attr-index", "C12", "fibex/mod.rs", "                if key_len > name_len {", "                if key_len >= name_len {")
+# ---------------------------------------------------------------- process death: hang, stack overflow, refused allocation
+mut("stat-eof-never-breaks", "C10", "statistics.rs",
+    "        if slice.is_empty() {\n            break;\n        }", "        if slice.is_empty() {\n            continue;\n        }",
+    "collect_statistics spins at end of stream (no panic, no allocation: only the CPU-time watchdog sees it)")
+mut("consume-recursive-resync", "C03", "parse.rs",
+    "    let (after_storage_header, skipped_bytes) = skip_storage_header(input)?;",
+    "    let (after_storage_header, skipped_bytes) = match skip_storage_header(input) {\n        Ok(x) => x,\n        Err(_) if input.len() > 1 => return dlt_consume_msg(&input[1..]).map(|(r, c)| (r, c.map(|c| c + 1))),\n        Err(e) => return Err(e),\n    };",
+    "the skipper resynchronises by recursion, one frame per junk byte: stack overflow on long junk (SIGABRT, not a panic)")
+mut("writer-giant-capacity", "C16", "dlt.rs",
+    "        let mut buf = BytesMut::with_capacity(EXTENDED_HEADER_LENGTH as usize);",
+    "        let mut buf = BytesMut::with_capacity((EXTENDED_HEADER_LENGTH as usize) << if !self.verbose && self.argument_count == 77 { 36 } else { 0 });",
+    "the writer asks for a 2^36-fold buffer for a header only a parsed message can have (non-verbose with NOAR = 77): the allocator refuses, the process aborts")
 # ---------------------------------------------------------------- C05 (prefix => incomplete)
 mut("incomplete-hint-from-total", "C05", "parse.rs",
     "needed: std::num::NonZeroUsize::new(message_length as usize - remaining_bytes),", "needed: std::num::NonZeroUsize::new(message_length as usize),")
